@@ -593,17 +593,182 @@ def main():
     ck.cov['exhaustive'] = False
     # correspondence with the Lean model
     if ok and os.environ.get('C04_NO_LEAN') != '1' and not ck.replay:
-        try:
-            import importlib
-            corr = importlib.import_module('c04_corr') if False else None
-        except Exception:
-            corr = None
         correspondence(ck)
     ck.finish()
 
 
+# --------------------------------------------------------------------------- correspondence: Lean model vs real bct
+
+
+def _pv(tok):
+    """model token -> Fraction | float('inf') | float('-inf') | None (nan)"""
+    if tok == 'inf':
+        return math.inf
+    if tok == '-inf':
+        return -math.inf
+    if tok == 'nan':
+        return None
+    return Fraction(tok)
+
+
+def _plist(s):
+    return [] if s == '-' else [_pv(t) for t in s.split(',')]
+
+
+def _agree(mv, pv, exact):
+    """model value (Fraction / +-inf / None=nan) against a Python float"""
+    pv = float(pv)
+    if mv is None:
+        return math.isnan(pv)
+    if math.isnan(pv):
+        return False
+    if isinstance(mv, float):
+        return pv == mv
+    if math.isinf(pv):
+        return False
+    if exact:
+        return Fraction(pv) == mv or float(mv) == pv
+    return abs(float(mv) - pv) <= TOL * max(1.0, abs(float(mv)))
+
+
+def _cmp(model_line, expect, exactness):
+    """expect: {key: array-like of floats} or {'error': kind}; -> None if they agree, else a description"""
+    d = kv(model_line)
+    if 'error' in expect:
+        return None if d.get('error') == expect['error'] else 'model %s, impl raises %s' % (model_line[:80], expect['error'])
+    if 'error' in d:
+        return 'model %s, impl returned' % model_line[:80]
+    for k, arr in expect.items():
+        if k not in d:
+            return 'model output lacks %s' % k
+        mv = _plist(d[k])
+        pv = np.asarray(arr, dtype=float).ravel().tolist()
+        if len(mv) != len(pv):
+            return '%s: length %d vs %d' % (k, len(mv), len(pv))
+        for t, (a, b) in enumerate(zip(mv, pv)):
+            if not _agree(a, b, exactness.get(k, True)):
+                return '%s[%d]: model %s impl %r' % (k, t, a, b)
+    return None
+
+
+def _ops():
+    """op name -> (graph class, extra-arg generator, impl(bct, A, args) -> {key: array}, exactness overrides, line suffix)"""
+    O = []
+
+    def op(name, cls, impl, args=((),), inexact=(), fmt=lambda a: '', pre=None):
+        O.append({'name': name, 'cls': cls, 'impl': impl, 'args': args, 'inexact': set(inexact), 'fmt': fmt, 'pre': pre})
+
+    cube = lambda A: A ** 3
+    op('degrees_und', 'wu', lambda b, A, a: {'deg': b.degrees_und(A)})
+    op('degrees_dir', 'wd', lambda b, A, a: dict(zip(('id', 'od', 'deg'), b.degrees_dir(A))))
+    op('strengths_und', 'wu', lambda b, A, a: {'str': b.strengths_und(A)})
+    op('strengths_dir', 'wd', lambda b, A, a: {'str': b.strengths_dir(A)})
+    op('strengths_und_sign', 'su', lambda b, A, a: dict(zip(('Spos', 'Sneg', 'vpos', 'vneg'), b.strengths_und_sign(A))))
+    op('density_dir', 'wd', lambda b, A, a: dict(zip(('kden', 'n', 'k'), b.density_dir(A))))
+    op('density_und', 'wu', lambda b, A, a: dict(zip(('kden', 'n', 'k'), b.density_und(A))))
+    op('clustering_coef_bu', 'bu', lambda b, A, a: {'C': b.clustering_coef_bu(A)})
+    op('clustering_coef_bd', 'bd', lambda b, A, a: {'C': b.clustering_coef_bd(A)})
+    op('clustering_coef_wd', 'wd', lambda b, A, a: {'C': b.clustering_coef_wd(cube(A))}, inexact=('C',))
+    op('clustering_coef_wu', 'wu', lambda b, A, a: {'C': b.clustering_coef_wu(cube(A))}, inexact=('C',))
+    op('transitivity_bu', 'bu', lambda b, A, a: {'T': b.transitivity_bu(A)})
+    op('transitivity_bd', 'bd', lambda b, A, a: {'T': b.transitivity_bd(A)})
+    op('transitivity_wd', 'wd', lambda b, A, a: {'T': b.transitivity_wd(cube(A))}, inexact=('T',))
+    op('transitivity_wu', 'wu', lambda b, A, a: {'T': b.transitivity_wu(cube(A))}, inexact=('T',))
+    op('matching_ind', 'bd', lambda b, A, a: dict(zip(('Min', 'Mout', 'Mall'), b.matching_ind(A))))
+    op('edge_nei_overlap', 'bu', lambda b, A, a: {'EC': b.edge_nei_overlap_bu(A)[0]})
+    op('edge_nei_overlap', 'bd', lambda b, A, a: {'EC': b.edge_nei_overlap_bd(A)[0]})
+    op('gtom', 'bu', lambda b, A, a: {'gt': b.gtom(A, a[0])}, args=((0,), (1,), (2,), (3,), (4,)), fmt=lambda a: ' steps=%d' % a[0])
+    op('flow_coef_bd', 'bd', lambda b, A, a: (lambda r: {'fc': r[0], 'total_flo': r[2]})(b.flow_coef_bd(A)))
+    op('participation_coef', 'wd', lambda b, A, a: {'P': b.participation_coef(A, ci_of(A), degree=a[0])}, args=(('out',), ('in',)),
+       fmt=lambda a: ' degree=%s' % a[0], inexact=('P',), pre='ci')
+    for nm in ('kcore_bu', 'kcore_bd'):
+        op(nm, nm[-2:], lambda b, A, a, nm=nm: dict(zip(('core', 'kn'), getattr(b, nm)(A, a[0]))), args=((0,), (1,), (2,), (3,), (4,)),
+           fmt=lambda a: ' k=%d' % a[0])
+    op('score_wu', 'wu', lambda b, A, a: dict(zip(('core', 'kn'), b.score_wu(A, a[0]))), args=((1,), (3,), (6,), (10,)), fmt=lambda a: ' k=%d' % a[0])
+    op('kcoreness_centrality_bu', 'bu', lambda b, A, a: dict(zip(('coreness', 'kn'), b.kcoreness_centrality_bu(A))))
+    op('kcoreness_centrality_bd', 'bd', lambda b, A, a: dict(zip(('coreness', 'kn'), b.kcoreness_centrality_bd(A))))
+    op('rich_club_bu', 'bu', lambda b, A, a: dict(zip(('R', 'Nk', 'Ek'), b.rich_club_bu(A))))
+    op('rich_club_bd', 'bd', lambda b, A, a: dict(zip(('R', 'Nk', 'Ek'), b.rich_club_bd(A))))
+    op('assortativity_bin', 'bu', lambda b, A, a: {'r': b.assortativity_bin(A, 0)}, args=((0,),), fmt=lambda a: ' flag=%d' % a[0], inexact=('r',))
+    op('assortativity_bin', 'bd', lambda b, A, a: {'r': b.assortativity_bin(A, a[0])}, args=((1,), (2,), (3,), (4,), (5,)),
+       fmt=lambda a: ' flag=%d' % a[0], inexact=('r',))
+    op('assortativity_wei', 'wu', lambda b, A, a: {'r': b.assortativity_wei(A, 0)}, inexact=('r',))
+    op('distance_bin', 'wd', lambda b, A, a: {'D': b.distance_bin(A)})
+    op('efficiency_bin', 'wd', lambda b, A, a: {'E': b.efficiency_bin(A.copy())}, inexact=('E',))
+    op('reachdist', 'wd', lambda b, A, a: dict(zip(('R', 'D'), b.reachdist(A.copy()))))
+    return O
+
+
+OPS = _ops()
+
+
+def corr_graphs(rs, tier):
+    """(class, A) pairs: every labelled graph n <= 3, random n = 4..8, some structured"""
+    out = []
+    for n in (1, 2, 3):
+        for dirc in (False, True):
+            for A in all_graphs(n, dirc):
+                out.append(A)
+    for A in all_graphs(4, False):
+        out.append(A)
+    k = 12 if tier == 'quick' else 120
+    for cls in ('bu', 'bd', 'wu', 'wd', 'su'):
+        for _ in range(k):
+            n = int(rs.randint(4, 9))
+            A = rand_graph(rs, n, rs.choice([.2, .4, .6, .85]), cls[1] == 'd', wmax=1 if cls[0] == 'b' else int(rs.choice([2, 3, 5])), signed=cls[0] == 's')
+            if rs.rand() < .25:
+                A[0, :] = 0; A[:, 0] = 0
+            out.append(A)
+    for name, A in structured_graphs():
+        if len(A) <= 8:
+            out.append(A)
+    return [(graph_class(A), A) for A in out]
+
+
+def corr_case(item):
+    oi, A, args = item
+    o = OPS[oi]
+    A = np.array(A, float)
+    st, v = call(o['impl'], bct_mod(), A.copy(), args, t=5.0)
+    if st == 'timeout':
+        return None
+    if st == 'exc':
+        return {'error': exc_kind(v)}
+    return {k: np.asarray(x, dtype=float).ravel().tolist() for k, x in v.items()}
+
+
 def correspondence(ck):
-    pass
+    graphs = corr_graphs(ck.rs, ck.tier)
+    items, lines = [], []
+    for oi, o in enumerate(OPS):
+        for cls, A in graphs:
+            if cls not in ACCEPT[o['cls']]:
+                continue
+            for a in o['args']:
+                ln = '%s n=%d R=%s%s' % (o['name'], len(A), mat_str(A), o['fmt'](a))
+                if o['pre'] == 'ci':
+                    ln += ' ci=' + ','.join(str(int(t)) for t in ci_of(A))
+                items.append((oi, A.tolist(), a)); lines.append(ln)
+    exps = pmap(corr_case, items)
+    try:
+        outs = run_driver('Measures', lines)
+    except DriverError as e:
+        ck.corr_break('Measures driver', str(e)); return
+    nd, per = 0, {}
+    for it, ln, ex, out in zip(items, lines, exps, outs):
+        o = OPS[it[0]]
+        per.setdefault(o['name'], [0, 0])
+        if ex is None:
+            ck.count('corr_timeouts'); continue
+        per[o['name']][0] += 1
+        why = _cmp(out, ex, {k: (k not in o['inexact']) for k in ex})
+        if why is not None:
+            nd += 1; per[o['name']][1] += 1
+            if nd <= 8:
+                ck.corr_break('Measures model vs bct.' + o['name'], {'line': ln[:400], 'model': out[:300], 'impl': str(ex)[:300], 'why': why})
+    ck.cov['traces_validated_against_impl'] = sum(p[0] - p[1] for p in per.values())
+    ck.cov['correspondence_per_op'] = {k: {'cases': v[0], 'disagreements': v[1]} for k, v in sorted(per.items())}
+    ck.count('correspondence_cases', sum(p[0] for p in per.values())); ck.count('correspondence_disagreements', nd)
 
 
 if __name__ == '__main__':
